@@ -1,5 +1,6 @@
 import CppUModel.Model.OutputEvents
 import CppUModel.Gen.EscapeTables
+import CppUModel.Gen.JUnitTemplates
 /-!
 # Model of `JUnitTestOutput` (src/CppUTest/JUnitTestOutput.cpp), written from the C++
 
@@ -8,6 +9,10 @@ group end.  Writer: `(fileName, bytes)` exactly as handed to `PlatformSpecificFO
 `encodeXmlText` is the chain of `SimpleString::replace(const char*, const char*)` calls of the
 regenerated table `Gen.EscapeTables.xmlReplaces` (each call = `Text.replaceAll`);
 `encodeFileName` is the loop of `replace(char, char)` over `Gen.EscapeTables.fileNameForbidden`.
+The writer functions are NOT written out here: `interp` interprets the statement lists that
+`translate/extract_junit.py` regenerates from the source on every run (`Gen.JUnitTemplates`: every literal and
+conversion of every format string, which fields pass through `encodeXmlText`, the order of the writer calls, the
+fields `resetTestGroupResult` clears, the statement order of `printCurrentGroupEnded`).
 The time string (`GetPlatformSpecificTimeString`) is an environment input.
 `totalCheckCount_` and `stdOutput_` are never reset between groups — as in the code.
 -/
@@ -105,62 +110,120 @@ def onFailure (s : St) (f : Failure) : St :=
     | none => { s with failureCount := s.failureCount + 1, nodesRev := { n with failure := some f } :: rest }
     | some _ => s
 
-/-- `resetTestGroupResult` -/
-def reset (s : St) : St :=
-  { s with testCount := 0, failureCount := 0, group := [], nodesRev := [] }
+/-- one cleared field of `resetTestGroupResult` -/
+def resetField (s : St) : Tpl.ResetField → St
+  | .testCount => { s with testCount := 0 }
+  | .failureCount => { s with failureCount := 0 }
+  | .group => { s with group := [] }
+  | .nodes => { s with nodesRev := [] }
 
-/-! ## writer -/
+/-- `resetTestGroupResult`: the regenerated list of cleared fields -/
+def reset (s : St) : St := Gen.JUnitTemplates.resetFields.foldl resetField s
 
-def xmlHeader : Bytes := lit "<?xml version=\"1.0\" encoding=\"UTF-8\" ?>\n"
+/-! ## writer: an interpreter of the regenerated statement lists (`Gen/JUnitTemplates.lean`) -/
 
-def suiteSummary (s : St) : Bytes :=
-  lit "<testsuite errors=\"0\" failures=\"" ++ fmtInt (castInt s.failureCount) ++
-  lit "\" hostname=\"localhost\" name=\"" ++ encodeXmlText s.group ++
-  lit "\" tests=\"" ++ fmtInt (castInt s.testCount) ++
-  lit "\" time=\"" ++ fmtTime s.groupExecTime ++
-  lit "\" timestamp=\"" ++ s.timeString ++ lit "\">\n"
+/-- `%0<w>d` -/
+def zeroPad (w : Nat) (ds : Bytes) : Bytes := List.replicate (w - ds.length) 48 ++ ds
 
-def properties : Bytes := lit "<properties>\n" ++ lit "</properties>\n"
+def fmtPad (w : Nat) (z : Int) : Bytes :=
+  if z < 0 then 45 :: zeroPad (w - 1) (dec z.natAbs) else zeroPad w (dec z.natAbs)
 
-def failureElem (f : Failure) : Bytes :=
-  lit "<failure message=\"" ++ encodeXmlText f.file ++ lit ":" ++ fmtInt (castInt f.line) ++ lit ": " ++
-  encodeXmlText f.message ++ lit "\" type=\"AssertionFailedError\">\n" ++ lit "</failure>\n"
+/-- what a writer statement can see: the collector, the running `totalCheckCount_`, the node `cur` of the
+    loop of `writeTestCases` and the failure `node->failure_` of `writeFailure` -/
+structure Ctx where
+  s     : St
+  total : Nat
+  node  : Node
+  fail  : Failure
 
-def testCase (package group : Bytes) (total : Nat) (n : Node) : Bytes :=
-  lit "<testcase classname=\"" ++ encodeXmlText package ++ (if package.isEmpty then [] else lit ".") ++
-  encodeXmlText group ++ lit "\" name=\"" ++ encodeXmlText n.name ++
-  lit "\" assertions=\"" ++ fmtInt (castInt ((n.checkCount : Int) - (total : Int))) ++
-  lit "\" time=\"" ++ fmtTime n.execTime ++
-  lit "\" file=\"" ++ encodeXmlText n.file ++ lit "\" line=\"" ++ fmtInt (castInt n.line) ++ lit "\">\n" ++
+def Ctx.ofSt (s : St) : Ctx := { s := s, total := s.totalCheckCount, node := default, fail := default }
+
+def evalField (c : Ctx) : Tpl.Field → Bytes
+  | .group => c.s.group
+  | .package => c.s.package
+  | .nodeName => c.node.name
+  | .nodeFile => c.node.file
+  | .failFile => c.fail.file
+  | .failMessage => c.fail.message
+  | .stdOutput => c.s.stdOutput
+  | .timeString => c.s.timeString
+
+def evalN (c : Ctx) : Tpl.NExpr → Nat
+  | .failureCount => c.s.failureCount
+  | .testCount => c.s.testCount
+  | .groupExecTime => c.s.groupExecTime
+  | .totalCheckCount => c.total
+  | .nodeCheckCount => c.node.checkCount
+  | .nodeExecTime => c.node.execTime
+  | .nodeLine => c.node.line
+  | .failLine => c.fail.line
+  | .div e k => evalN c e / k
+  | .mod e k => evalN c e % k
+
+/-- the `int` handed to the format -/
+def evalNum (c : Ctx) : Tpl.Num → Int
+  | .cast e => castInt (evalN c e)
+  | .castDiff a b => castInt ((evalN c a : Int) - (evalN c b : Int))
+
+def itemBytes (c : Ctx) : Tpl.Item → Bytes
+  | .text b => b
+  | .enc f => encodeXmlText (evalField c f)
+  | .raw f => evalField c f
+  | .int n => fmtInt (evalNum c n)
+  | .intPad w n => fmtPad w (evalNum c n)
+  | .ifPackageEmpty a b => if c.s.package.isEmpty then a else b
+
+/-- the bytes a regenerated statement list writes -/
+def interp (c : Ctx) (items : List Tpl.Item) : Bytes := items.flatMap (itemBytes c)
+
+/-- one iteration of the loop of `writeTestCases`; `total` is `totalCheckCount_` on entry (it is set to
+    `cur->checkCount_` after the open tag) -/
+def testCase (s : St) (total : Nat) (n : Node) : Bytes :=
+  interp { s := s, total := total, node := n, fail := default } Gen.JUnitTemplates.caseOpen ++
   (match n.failure with
-   | some f => failureElem f
-   | none => if n.ignored then lit "<skipped />\n" else []) ++
-  lit "</testcase>\n"
+   | some f => interp { s := s, total := n.checkCount, node := n, fail := f } Gen.JUnitTemplates.failureElem
+   | none =>
+     if n.ignored then interp { s := s, total := n.checkCount, node := n, fail := default } Gen.JUnitTemplates.caseSkipped
+     else []) ++
+  interp { s := s, total := n.checkCount, node := n, fail := default } Gen.JUnitTemplates.caseClose
 
-/-- `writeTestCases`: the loop over the node list; `total` is `totalCheckCount_` -/
-def testCases (package group : Bytes) : Nat → List Node → Bytes
+/-- `writeTestCases`: the loop over the node list -/
+def testCases (s : St) : Nat → List Node → Bytes
   | _, [] => []
-  | total, n :: rest => testCase package group total n ++ testCases package group n.checkCount rest
+  | total, n :: rest => testCase s total n ++ testCases s n.checkCount rest
 
 /-- `totalCheckCount_` after `writeTestCases` -/
 def totalAfter : Nat → List Node → Nat
   | total, [] => total
   | _, n :: rest => totalAfter n.checkCount rest
 
-def fileEnding (s : St) : Bytes :=
-  lit "<system-out>" ++ encodeXmlText s.stdOutput ++ lit "</system-out>\n" ++
-  lit "<system-err></system-err>\n" ++ lit "</testsuite>\n"
+def sectionBytes (s : St) : Tpl.Section → Bytes
+  | .xmlHeader => interp (Ctx.ofSt s) Gen.JUnitTemplates.xmlHeader
+  | .suiteSummary => interp (Ctx.ofSt s) Gen.JUnitTemplates.suiteSummary
+  | .properties => interp (Ctx.ofSt s) Gen.JUnitTemplates.properties
+  | .testCases => testCases s s.totalCheckCount s.nodesRev.reverse
+  | .fileEnding => interp (Ctx.ofSt s) Gen.JUnitTemplates.fileEnding
 
-/-- everything written between `openFileForWrite` and `closeFile` -/
-def fileBytes (s : St) : Bytes :=
-  xmlHeader ++ suiteSummary s ++ properties ++
-  testCases s.package s.group s.totalCheckCount s.nodesRev.reverse ++ fileEnding s
+/-- everything written between `openFileForWrite` and `closeFile`: the writer calls of
+    `writeTestGroupToFile` in their regenerated order (each exactly once — checked by the translator) -/
+def fileBytes (s : St) : Bytes := Gen.JUnitTemplates.groupFile.flatMap (sectionBytes s)
 
 /-- `writeTestGroupToFile` -/
 def writeGroup (s : St) : File :=
   { name := createFileName s.package s.group, bytes := fileBytes s }
 
-/-- `printCurrentGroupEnded` -/
+/-- one statement of `printCurrentGroupEnded` -/
+def endStep (ms : Nat) (acc : St × List File) : Tpl.EndStep → St × List File
+  | .takeGroupTime => ({ acc.1 with groupExecTime := ms }, acc.2)
+  | .writeFile =>
+    ({ acc.1 with totalCheckCount := totalAfter acc.1.totalCheckCount acc.1.nodesRev.reverse }, acc.2 ++ [writeGroup acc.1])
+  | .reset => (reset acc.1, acc.2)
+
+/-- `printCurrentGroupEnded`: the regenerated statement list -/
+def groupEnded (s : St) (ms : Nat) : St × List File :=
+  Gen.JUnitTemplates.groupEndedSteps.foldl (endStep ms) (s, [])
+
+/-- the collector after `printCurrentGroupEnded` (closed form, see `groupEnded_eq`) -/
 def onGroupEnded (s : St) (ms : Nat) : St :=
   reset { s with groupExecTime := ms, totalCheckCount := totalAfter s.totalCheckCount s.nodesRev.reverse }
 
@@ -180,7 +243,7 @@ def step (s : St) (e : Ev) : St × List File :=
   | .failure f => (onFailure s f, [])
   | .veryVerbose _ => (s, [])          -- `printVeryVerbose` → `printBuffer`, which does nothing here
   | .testEnded ms checks => (onTestEnded s ms checks, [])
-  | .groupEnded ms => (onGroupEnded s ms, [writeGroup { s with groupExecTime := ms }])
+  | .groupEnded ms => groupEnded s ms
   | .testsEnded _ => (s, [])
 
 /-- the files of a whole run, in the order they are written -/
